@@ -25,7 +25,7 @@ ASSUMPTIONS = [
     "a directory fully matched by --exclude is excluded with everything below it",
     "roots never have hidden names; depth: a file d levels below a root directory is selected iff d <= --depth",
     "ignore files use only the documented simple forms name, dir/, *.ext, **/name; never both .gitignore and .fdignore in one directory",
-    "glob forms restricted to literal/*/**/? (C16 not decided here); --one-fs not exercised (single file system)",
+    "glob forms restricted to literal/*/**/? (C16 not decided here); --one-fs: a subtree is presented as another device by seam relabelling of st_dev",
 ]
 def _l1(x):
     return x.encode("utf-8").decode("latin-1")   # world paths are latin-1 views of the byte strings
@@ -130,6 +130,11 @@ def gen_case(seed, i):
         # case-insensitive matching of cwd-relative patterns whose case differs from the names
         k = rng.choice(["path", "exclude"])
         opts[k] = [rng.choice(["*/*.TXT", "*.TXT", "SUB/*", "*/readme", "*/F.TXT", "*/*/*.Txt", "A/**"])]
+    if rng.random() < 0.15:
+        subs = [d for d in dirs if "/" in d]
+        if subs:
+            opts["one_fs"] = True
+            opts["mount"] = rng.choice(subs)        # this subtree is presented as another file system
     rootargs = list(roots)
     r = rng.random()
     if r < 0.15:
@@ -151,6 +156,9 @@ def shrink(case):
     for i, e in enumerate(ents):
         if e["p"] in case["roots"] or e["p"] == case["opts"]["cwd"] or case["opts"]["cwd"].startswith(e["p"] + "/"):
             continue
+        mnt_ = case["opts"].get("mount")
+        if mnt_ and (e["p"] == mnt_ or mnt_.startswith(e["p"] + "/")):
+            continue
         if e["t"] == "d" and any(o["p"].startswith(e["p"] + "/") for o in ents):
             continue
         c = dict(case); c["world"] = {"entries": ents[:i] + ents[i + 1:]}; yield c
@@ -160,7 +168,7 @@ def shrink(case):
             if c["opts"]["cwd"].split("/")[0] in [r.split("/")[0] for r in c["roots"]]:
                 yield c
     for k, v in list(case["opts"].items()):
-        if k == "cwd" or v in (False, None):
+        if k in ("cwd", "mount") or v in (False, None):
             continue
         c = dict(case); c["opts"] = dict(case["opts"])
         if isinstance(v, bool):
@@ -189,6 +197,8 @@ def opt_args(o, W):
         a.append("-i")
     if o.get("regex"):
         a.append("--regex")
+    if o.get("one_fs"):
+        a.append("--one-fs")
     for k in ("name", "path", "exclude"):
         for v in o.get(k, []):
             a += ["--" + k, v.replace("@W@", W)]
@@ -242,9 +252,26 @@ def run_case(case):
         cwd = cwd_b.decode("utf-8")
         roots_abs = [os.path.join(rd.wb(), s2b(r)) for r in case["roots"]]
         flt = make_filter(o, W, cwd)
+        labels = None
+        dev_of = None
+        if o.get("one_fs"):
+            # present the subtree opts["mount"] as a different device (seam relabelling of st_dev)
+            mnt = os.path.join(rd.wb(), s2b(o["mount"]))
+            labels = {}
+            for dp, dns, fns in os.walk(mnt):
+                for x in [dp] + [os.path.join(dp, f) for f in fns]:
+                    st_ = os.lstat(x)
+                    if not os.path.islink(x):
+                        labels[st_.st_ino] = {"dev": 999}
+            real_dev = os.stat(rd.world).st_dev
+
+            def dev_of(p, mnt=mnt):
+                rp = os.path.realpath(p)
+                return 999 if (rp == mnt or rp.startswith(mnt + b"/")) else real_dev
         exp = model.scan(roots_abs, hidden=o.get("hidden", False), follow=o.get("L", False), report_links=o.get("S", False),
                          depth=o.get("depth"), min_size=o.get("min", 0), max_size=o.get("max"),
-                         name_filter=flt, honour_ignore=not o.get("no_ignore", False), prune=flt.prune)
+                         name_filter=flt, honour_ignore=not o.get("no_ignore", False), prune=flt.prune,
+                         one_fs=bool(o.get("one_fs")), dev_of=dev_of)
         exp_set = set(exp)
         args = opt_args(o, W) + ["--rf-over", "0", "-f", "json"]
         env = {"FCLONES_VERIF_DEVICES": "/=ssd:simroot"}
@@ -252,7 +279,7 @@ def run_case(case):
         traces = []
         for pool in ("1", "2", "16"):
             res = ops.group(rd, [os.path.relpath(os.path.join(rd.wb(), s2b(r)), cwd_b) if k % 2 else os.path.join(rd.wb(), s2b(r)) for k, r in enumerate(case["roots"])],
-                            args + ["--threads", "main:" + pool], env=env, cwd=cwd_b, seed=7)
+                            args + ["--threads", "main:" + pool], env=env, cwd=cwd_b, seed=7, labels=labels)
             traces.append(res.trace)
             if res.timed_out:
                 viol.append({"clause": "terminates", "detail": "group hung with main pool %s" % pool})
